@@ -23,6 +23,9 @@ def obligations(tier):
            module=Hh, func='e_dedup', timeout=900, shards=8),
         Ob('E.ops', 'E', 'histories with deletes and cleans (destructive commands partly issued by another client object of the same user): referenced chunks stored; after clean objects == referenced',
            'every 2nd of 15^3 histories = 1688', ['replicat.repository:Repository.snapshot', F['del'], F['clean']], module=Hh, func='e_dedup_ops', timeout=900, shards=8),
+        Ob('E.rate', 'E', 'unchanged data (one file of 130 KB..1.2 MB, 4096..16384-byte chunks) snapshotted twice under different rate limits: the second run uploads nothing and references the same chunk list',
+           '4 sizes x 2 first limits x 5 second limits x same/shared key x 2 concurrency = 160', ['replicat.repository:Repository.snapshot', 'replicat.utils.adapters:gclmulchunker.__call__'],
+           module=Hh, func='e_dedup_rate', timeout=900, shards=4),
         Ob('E.hist', 'E', 'any 3 snapshots by A/B/C: per-family chunk objects == distinct referenced chunks; repeating the first uploads nothing',
            '9^3 = 729 histories', ['replicat.repository:Repository.snapshot'], module=Hh, func='e_dedup_hist', timeout=900, shards=4),
     ]
